@@ -16,7 +16,11 @@ element-wise on the pairs with running maximum >= spot, and (e) contracts that a
 derivatives with their own Black-Scholes module registered under their own name: BlackScholes(derivative) resolves to the
 module registered for the most derived class and the relations hold for what it quotes; WHICH module class is handed out is
 also decided by the model (Model/Factory.lean, op factory: the registry as an insertion-ordered dict, lookup by the own class
-name only) from the history of register_module calls of this process, and compared exactly (class name or error kind).
+name only) from the history of register_module calls of this process, and compared exactly (class name or error kind),
+(f) modules bound to a simulated derivative called with PARTIAL argument lists (partial_block): every subset of the arguments given
+explicitly with values that differ from the derivative's own (bumped spot, one time step as a column, higher running maximum, other
+time / volatility), the rest acquired; relations at the effective point (explicit where given, the derivative's record otherwise),
+agreement with the functional there, and the model of the module layer (op bs_module with `given`) / of the formulas (op bs).
 """
 import math
 from common import *  # noqa
@@ -891,4 +895,9 @@ def check(ctx):
              "BlackScholes(derivative) + all relations + model of the module layer; every BlackScholes(derivative) of these scenarios, plus probes (unregistered subclasses of registered "
              "contracts, puts of contracts registered with a path-dependent module, every registered contract as call and put), also resolved by the model of the registry (op factory: history of "
              "register_module calls read off named_modules() + the calls made here, two names registered twice; class name + MRO + call flag -> module class name / call flag of the instance or error kind, "
-             "and the named_modules() order), compared exactly; distinct = sha1 of canonical case")
+             "and the named_modules() order), compared exactly; "
+             "modules bound to a simulated derivative (six on one underlier, library classes / user subclasses, BlackScholes(derivative) / from_derivative, float32 / float64) called with every one of the 16 subsets of "
+             "(log_moneyness, max_log_moneyness, time_to_maturity, volatility) given explicitly (spot bumped down / up to the recorded maximum / one step as a column (N,1); running maximum higher / final column / at the strike; "
+             "time scaled / column / one element / row; volatility full / one element / column) and the rest acquired: point relations at the effective point on the cells with time > 0 and running maximum >= spot, "
+             "quote = functional at the effective point (rel 1e-10 float64, 2e-5 float32), float64: two cells per subset to the model of the formulas and one path per subset to the model of the module layer with `given`; "
+             "distinct = sha1 of canonical case")
